@@ -296,11 +296,26 @@ class SelectionContainers(Facet):
         ev = SequentialEvaluator()
         inds = [Individual((i, tuple(float(x) if isinstance(x, str) else x for x in v)), rep) for i, v in enumerate(case["vectors"])]
         ev.evaluate(problem, inds)
+        other = None
+        if case["seed"] % 2 == 0:
+            # ... and they carry a cached fitness for ANOTHER problem as well (kept alive here)
+            from geneticengine.problems import SingleObjectiveProblem
+
+            other = SingleObjectiveProblem(lambda p: float(p[0]) * 2.0 + 1.0)
+            ev.evaluate(other, inds)
+            other_before = [x.get_fitness(other).fitness_components[0] if x.has_fitness(other) else None for x in inds]
+            rec.label("also-scored-under-another-problem")
+            if not all(x.has_fitness(problem) and x.has_fitness(other) for x in inds):
+                rec.fail(
+                    "C09/input-modified/table/fitness-cached-for-another-problem",
+                    "evaluating individuals for a second problem dropped the fitness they had cached for the first one (both problems still exist)",
+                )
+                return
         given = list(inds)
         if any(isinstance(x, str) for v in case["vectors"] for x in v):
             rec.label("with-NaN-objective")
         before = [id(x) for x in given]
-        fit_before = [tuple(x.get_fitness(problem).fitness_components) for x in given]
+        fit_before = [tuple(x.get_fitness(problem).fitness_components) if x.has_fitness(problem) else None for x in given]
         rec.label(*["has:" + k for k in sorted(_kinds(case["step"]))])
         rec.sample({"step": step_str(case["step"]), "population": case["vectors"], "k": case["k"]}, limit=3)
         try:
@@ -317,6 +332,8 @@ class SelectionContainers(Facet):
             )
         elif [tuple(x.get_fitness(problem).fitness_components) if x.has_fitness(problem) else None for x in given] != fit_before:
             rec.fail("C09/input-modified/table/fitness", f"{step_str(case['step'])} changed a cached fitness of the given individuals")
+        elif other is not None and [x.get_fitness(other).fitness_components[0] if x.has_fitness(other) else None for x in inds] != other_before:
+            rec.fail("C09/input-modified/table/fitness-cached-for-another-problem", f"{step_str(case['step'])} (run for one problem) dropped or changed the fitness the given individuals had cached for another, still existing problem")
         if len({tuple(v) for v in case["vectors"]}) >= 3 and case["k"] >= 2:
             rec.nontrivial(case)
 
